@@ -239,6 +239,27 @@ def run(ctx):
                 ctx.exception(e, "follow-up call after a fault at %s" % key, desc, key="sampler-corrupted-after-fault")
             if pk:
                 base.close()
+        # validation failures are failures too: a prior_samples argument of an unsupported type must be refused and leave
+        # nothing behind (only for the object scenarios, once per API)
+        if kind == "obj" and pk == 0:
+            import pathlib
+            bads = {"pathlib.Path": pathlib.Path(upath), "QTable": pb.lib.tbl, "ndarray": np.zeros((3, 5)), "None": None}
+            for bname, bobj in bads.items():
+                joker, base = make_joker()
+                d3 = dict(scenario=list(sc), variant=variant, bad_input=bname)
+                try:
+                    if api == "marginal":
+                        joker.marginal_ln_likelihood(pb.data, bobj)
+                    elif api == "rejection":
+                        joker.rejection_sample(pb.data, bobj)
+                    else:
+                        joker.iterative_rejection_sample(pb.data, bobj, n_requested_samples=2, init_batch_size=20)
+                    ctx.count("unsupported_input_accepted_" + bname)
+                except Exception:
+                    pass
+                ctx.evaluations += 1
+                ctx.distinct.add(repr((sc, variant, "bad-input", bname)))
+                post_conditions(d3, "after refusing a %s as prior samples" % bname)
         ctx.sample(dict(scenario=list(sc), functions_reached=len(faults.State.order), fault_points=len(points),
                         first_points=[(k2, k3) for _, k2, k3 in points[:6]]))
         if os.path.exists(upath):
